@@ -194,7 +194,23 @@ def locate(n, obj):
     return None
 
 
-def probe_replace(node, target):
+_falsy_cls = []
+
+
+def falsy_probe_node():
+    """a node object that is falsy (`__bool__` returns False): what `query_traversal(child, …) or child` drops"""
+    from mindsdb_sql.parser.ast import Constant
+    if not _falsy_cls:
+        _falsy_cls.append(type('FalsyProbe', (Constant,), {'__bool__': lambda self: False}))
+    return _falsy_cls[0]('R')
+
+
+def falsy_capable(cls):
+    """the class (or a base other than object) defines `__len__` or `__bool__`: its instances can be falsy"""
+    return any(k in vars(c) for c in cls.__mro__ if c is not object for k in ('__len__', '__bool__'))
+
+
+def probe_replace(node, target, falsy=False):
     """target = ('kid', i) or ('grand', i, j): the callback returns a fresh node there.
     returns 'same' | 'discard' | 'outer' | 'other:<where>'"""
     from mindsdb_sql.planner.utils import query_traversal
@@ -208,7 +224,7 @@ def probe_replace(node, target):
         g = walkspec.children(kids[target[1]][2])
         tgt = g[target[2]][2]
         orig = ('grand', target[1], g[target[2]][0], g[target[2]][1])
-    R = Constant('R')
+    R = falsy_probe_node() if falsy else Constant('R')
     others = [c for (a, p, c) in kids if c is not tgt and not (target[0] == 'grand' and c is kids[target[1]][2])]
     ts = lambda c: c.to_string() if hasattr(c, 'to_string') else repr(sorted(vars(c).items(), key=str))
     before = [ts(c) for c in others]
@@ -402,6 +418,7 @@ def probe_class(cn, exemplars):
     values = {}                # attr -> set of value class names
     print_seqs, walk_seqs = [], []
     flags, repl, via, nonev = {}, {}, {}, {}
+    orstyle = {}
     unprinted_seen, printed_seen = set(), set()
     nonuniform = []
     unprintable = 0
@@ -489,6 +506,12 @@ def probe_class(cn, exemplars):
             except Exception as e:
                 r = 'raises:%s' % type(e).__name__
             repl.setdefault(a, set()).add(r)
+            # the same with a falsy answer: dropped by the `… or child` idiom, kept by `if … is not None`
+            try:
+                rf = probe_replace(ex, v[:2] if v[0] == 'kid' else v[:3], falsy=True)
+            except Exception as e:
+                rf = 'raises:%s' % type(e).__name__
+            orstyle.setdefault(a, set()).add(rf.split('+')[0] == 'discard' and r.split('+')[0] != 'discard')
     # ---- merge
     plain = [[x for x in s if not isinstance(x, tuple)] for s, _ in walk_seqs]
     for s in plain:
@@ -527,9 +550,12 @@ def probe_class(cn, exemplars):
             nonuniform.append('via of %s varies: %s' % (a, vi))
         if len(rp) != 1:
             nonuniform.append('replacement of %s varies: %s' % (a, rp))
+        if len(orstyle.get(a, ())) > 1:
+            nonuniform.append('treatment of a falsy answer for %s varies' % a)
         f = fl[0] if fl else (False, False, 'none')
         row.append(dict(slot=a, via=vi[0] if vi else None, is_table=f[0], is_target=f[1], pq=f[2],
-                        repl=rp[0] if rp else 'same', none_visit=a in nonev))
+                        repl=rp[0] if rp else 'same', none_visit=a in nonev,
+                        or_style=bool(orstyle.get(a)) and all(orstyle[a])))
     for a in nonev:
         if a not in worder:
             nonuniform.append('None visit for a slot that is never visited: %s' % a)
@@ -657,7 +683,7 @@ def emit_lean(schema):
     for cn in names:
         c = schema['classes'].get(cn)
         if not c:
-            rows.append('  -- %s\n  ⟨[], [], []⟩' % (cn or 'none'))
+            rows.append('  -- %s\n  ⟨[], [], [], false⟩' % (cn or 'none'))
             continue
         sid = c['slot_id']
         kinds = ', '.join('Kind.%s' % c['kinds'][a] for a in c['slots'])
@@ -674,15 +700,18 @@ def emit_lean(schema):
                         vid = kc_['slot_id'][e['via']]
                 via = 'some %d' % (vid if vid is not None else 0)
             rp = e['repl'] if e['repl'] in ('same', 'discard', 'outer') else 'discard'
-            ws.append('⟨%d, %s, %s, %s, PQ.%s, Repl.%s, %s⟩' % (
+            ws.append('⟨%d, %s, %s, %s, PQ.%s, Repl.%s, %s, %s⟩' % (
                 sid[e['slot']], via, str(e['is_table']).lower(), str(e['is_target']).lower(),
-                'self' if e['pq'] == 'self' else 'inherit', rp, str(e['none_visit']).lower()))
-        rows.append('  -- %s: %s\n  ⟨[%s], [%s], [%s]⟩' % (cn, ' '.join('%d=%s' % (sid[a], a) for a in c['slots']),
-                                                            kinds, pr, ', '.join(ws)))
+                'self' if e['pq'] == 'self' else 'inherit', rp, str(e['none_visit']).lower(), str(e['or_style']).lower()))
+        rows.append('  -- %s: %s\n  ⟨[%s], [%s], [%s], %s⟩' % (cn, ' '.join('%d=%s' % (sid[a], a) for a in c['slots']),
+                                                                kinds, pr, ', '.join(ws), str(bool(c.get('falsy'))).lower()))
     L.append(',\n'.join(rows) + ']')
     L.append('')
     L.append('/-- the markers rendered by `sort_by_text_position` for %d placeholders, as code points -/' % len(schema['markers']['markers']))
     L.append('def markers : List (List Nat) := [%s]' % ', '.join('[%s]' % ', '.join(str(ord(ch)) for ch in m) for m in schema['markers']['markers']))
+    L.append('')
+    L.append('/-- AST classes (all subclasses of ASTNode, and TableColumn) that define `__len__` / `__bool__`, by introspection -/')
+    L.append('def falsyCapable : List String := [%s]' % ', '.join(lean_str(n) for n in schema.get('falsy_capable', [])))
     L.append('')
     ok = [x for x in schema.get('samples', []) if 'rose' in x]
     L.append('/-- parser trees of real statements (mindsdb dialect), serialised by the harness on this run -/')
@@ -709,6 +738,7 @@ def build():
     classes = {}
     for cn in sorted(by):
         c = probe_class(cn, by[cn])
+        c['falsy'] = falsy_capable(type(by[cn][0]))
         c['slot_id'] = {a: i for i, a in enumerate(c['slots'])}
         c['deviations'] = deviations(cn, c)
         classes[cn] = c
@@ -716,6 +746,14 @@ def build():
                   parsed=parsed, markers=probe_markers())
     schema['classes'] = {cn: dict(c, slot_id=c['slot_id']) for cn, c in classes.items()}
     schema['samples'] = sample_trees(schema)
+    seen, todo = set(), list(walkspec.astnode())
+    while todo:
+        k = todo.pop()
+        if k not in seen:
+            seen.add(k)
+            todo.extend(k.__subclasses__())
+    schema['falsy_capable'] = sorted({k.__name__ for k in seen if falsy_capable(k) and not k.__name__.endswith('Mark')
+                                      and k.__name__ != 'FalsyProbe'})
     return schema
 
 
